@@ -44,7 +44,7 @@ struct Variant {
 };
 
 struct Op {
-  enum Kind { kEdit, kTouch, kRm, kVariant, kNinja, kWrite, kMkdir, kRmLogRecord, kDupLogRecord, kDupDepsRecord } kind = kEdit;
+  enum Kind { kEdit, kTouch, kRm, kVariant, kNinja, kWrite, kMkdir, kRmLogRecord, kDupLogRecord, kDupDepsRecord, kEpoch } kind = kEdit;
   std::string label;
   std::string path;
   std::string content;       // kWrite
